@@ -187,8 +187,9 @@ class Evaluator:
     Anything else becomes None (= not representable; the caller reports *undecided*).
     """
 
-    def __init__(self, tu, var=None, member=None, call=None, use_cv=True, on_sub=None):
+    def __init__(self, tu, var=None, member=None, call=None, use_cv=True, on_sub=None, divmod=None):
         self.tu = tu
+        self.divmod = divmod      # divmod(node, a, b, '/' | '%') -> Poly | None: value of an integer quotient / remainder
         self.on_sub = on_sub      # on_sub(node, a, b): told about every subtraction `a - b` that is evaluated
         self.var = var or (lambda n, d: None)
         self.member = member or (lambda n: None)
@@ -269,6 +270,13 @@ class Evaluator:
             if op == '-' and self.on_sub is not None:
                 self.on_sub(n, a, b)
             return a + b if op == '+' else a - b if op == '-' else a * b
+        if k == 'BinaryOperator' and n.get('opcode') in ('/', '%') and self.divmod is not None:
+            ks = tu.kids(n)
+            a = self.ev(ks[0], depth + 1)
+            b = self.ev(ks[1], depth + 1)
+            if a is None or b is None:
+                return None
+            return self.divmod(n, a, b, n['opcode'])
         if k == 'ConditionalOperator':
             ks = tu.kids(n)
             c = self.truth(ks[0], depth + 1)
